@@ -55,6 +55,7 @@ Lemma qualify_map {X} a (f : X -> row) l : qualify a (map f l) = map (fun x => e
 Proof. unfold qualify. now rewrite map_map. Qed.
 
 Section BRIDGE.
+  Context {RG : ReGroups}.
   Variable re_match : string -> string -> bool.
   Variable parse_float : string -> option Q.
   Variable json_get : string -> list string -> string.
@@ -1109,13 +1110,13 @@ Section BRIDGE.
 End BRIDGE.
 (* ================= Part 5: the property theorems ================= *)
 Theorem logql_log_partial_proof :
-  forall re_match parse_float json_get hash_labels (tie : forall A : Type, list A -> list A),
+  forall (RG : ReGroups) re_match parse_float json_get hash_labels (tie : forall A : Type, list A -> list A),
     (forall A (l : list A), Permutation (tie A l) l) ->
     forall q c d, in_fragment q = true -> oracle_ok re_match parse_float q -> ctx_ok c = true -> db_ok c d ->
     width_guard q = true -> absent_guard re_match q d ->
     log_correct re_match parse_float json_get hash_labels tie q c d.
 Proof.
-  intros re_match parse_float json_get hash_labels tie Htie [ms ppl] c d Hfrag Hor Hctx Hdb Hw Hg.
+  intros RG re_match parse_float json_get hash_labels tie Htie [ms ppl] c d Hfrag Hor Hctx Hdb Hw Hg.
   unfold in_fragment in Hfrag. cbn [sel_matchers sel_pipeline] in Hfrag. apply andb_prop in Hfrag. destruct Hfrag as [Hne Hsup].
   unfold width_guard in Hw. cbn [sel_matchers] in Hw. apply Nat.leb_le in Hw.
   apply (log_plan_correct re_match parse_float json_get hash_labels tie Htie c d Hctx Hdb ms ppl); try assumption.
@@ -1157,7 +1158,7 @@ Qed.
 Theorem logql_log_sound_complete_refuted_proof : ~ log_sound_complete_stmt.
 Proof.
   intros H.
-  destruct (H no_re no_float no_json no_hash tie_id (fun A l => Permutation_refl l) w_query w_ctx w_db eq_refl) as [sel [rows [outs [Hsel [Hev [Hout Hsem]]]]]].
+  destruct (H no_groups no_re no_float no_json no_hash tie_id (fun A l => Permutation_refl l) w_query w_ctx w_db eq_refl) as [sel [rows [outs [Hsel [Hev [Hout Hsem]]]]]].
   - intros s [].
   - reflexivity.
   - exact w_db_ok.
